@@ -15,6 +15,7 @@ import (
 	v2types "github.com/aws/aws-sdk-go-v2/service/dynamodb/types"
 	v1client "github.com/truora/minidyn/aws-v1/client"
 	v2client "github.com/truora/minidyn/aws-v2/client"
+	mtypes "github.com/truora/minidyn/types"
 
 	"verifharness/adapt"
 	"verifharness/mon"
@@ -304,6 +305,55 @@ func c14Ops() []c14Op {
 			return in.RequestItems, it, err == nil
 		}},
 	}
+	// the documented override: native interpreter on, an updater written the way the README shows it
+	// (item[name] = updates[":name"]): what the callback stores comes from the library's copy of the request's
+	// ExpressionAttributeValues, so poking the request afterwards must still change nothing
+	nativeUpd := func(existing bool) func(ad string, cl adapt.Client, item val.Item) (interface{}, val.Item, bool) {
+		return func(ad string, cl adapt.Client, item val.Item) (interface{}, val.Item, bool) {
+			names := []string{}
+			for k := range item {
+				names = append(names, k)
+			}
+			sort.Strings(names)
+			if len(names) == 0 {
+				return nil, nil, false
+			}
+			sets := []string{}
+			vals := val.Item{}
+			for i, k := range names {
+				sets = append(sets, fmt.Sprintf("%s = :v%d", k, i))
+				vals[fmt.Sprintf(":v%d", i)] = item[k]
+			}
+			expr := "SET " + strings.Join(sets, ", ")
+			upd := func(it map[string]*mtypes.Item, updates map[string]*mtypes.Item) {
+				for i, k := range names {
+					it[k] = updates[fmt.Sprintf(":v%d", i)]
+				}
+			}
+			if existing && cl.Do(adapt.Op{Kind: adapt.OpPut, Table: "tbl14", Item: withKey(val.Item{"old": val.Str("o")})}).Class != adapt.ClsOK {
+				return nil, nil, false
+			}
+			exp := withKey(item)
+			if existing {
+				exp["old"] = val.Str("o")
+			}
+			if ad == "v1" {
+				c := cl.Raw().(*v1client.Client)
+				c.ActivateNativeInterpreter()
+				c.GetNativeInterpreter().AddUpdater("tbl14", expr, upd)
+				in := &v1ddb.UpdateItemInput{TableName: aws.String("tbl14"), Key: adapt.ItemToV1(c14Key), UpdateExpression: aws.String(expr), ExpressionAttributeValues: adapt.ItemToV1(vals)}
+				_, err := c.UpdateItem(in)
+				return map[string]interface{}{"values": in.ExpressionAttributeValues, "key": in.Key}, exp, err == nil
+			}
+			c := cl.Raw().(*v2client.Client)
+			c.ActivateNativeInterpreter()
+			c.GetNativeInterpreter().AddUpdater("tbl14", expr, upd)
+			in := &v2ddb.UpdateItemInput{TableName: v2aws.String("tbl14"), Key: adapt.ItemToV2(c14Key), UpdateExpression: v2aws.String(expr), ExpressionAttributeValues: adapt.ItemToV2(vals)}
+			_, err := c.UpdateItem(ctx, in)
+			return map[string]interface{}{"values": in.ExpressionAttributeValues, "key": in.Key}, exp, err == nil
+		}
+	}
+	ops = append(ops, c14Op{"input/UpdateItem.Values(native updater, upsert)", nativeUpd(false)}, c14Op{"input/UpdateItem.Values(native updater, existing item)", nativeUpd(true)})
 	put := func(cl adapt.Client, it val.Item) bool {
 		return cl.Do(adapt.Op{Kind: adapt.OpPut, Table: "tbl14", Item: it}).Class == adapt.ClsOK
 	}
